@@ -168,6 +168,8 @@ class _Frame:
         self.it = it
         self.f = f
         self.rets = rets
+        # local helpers (closures) of the analysed function
+        self.local_defs: dict[str, ast.FunctionDef] = {n.name: n for n in f.node.body if isinstance(n, ast.FunctionDef)}
         # locals that name a paired / numbered iteration: `pairs = zip(A, B)` ... `for i, (a, b) in enumerate(pairs)`
         self.iter_defs: dict[str, ast.expr] = {}
         stores: dict[str, int] = {}
@@ -238,6 +240,15 @@ class _Frame:
     def domain(self, node: ast.expr, env: dict, ren: dict) -> tuple[str, list[ast.expr] | None]:
         """(normalised domain key, literal elements if the domain is a literal sequence)"""
         al = self.it.aliases
+        # `[c] * len(X)` has one element per element of X
+        if isinstance(node, ast.BinOp) and isinstance(node.op, ast.Mult):
+            for lst_, n_ in ((node.left, node.right), (node.right, node.left)):
+                if isinstance(lst_, ast.List) and len(lst_.elts) == 1 and isinstance(n_, ast.Call) and isinstance(n_.func, ast.Name) and n_.func.id == "len" and len(n_.args) == 1:
+                    return self.domain(n_.args[0], env, ren)
+        if isinstance(node, ast.Name) and isinstance(env.get(node.id), ast.BinOp):
+            d_ = env[node.id]
+            if isinstance(d_.op, ast.Mult) and any(isinstance(x, ast.List) and len(x.elts) == 1 for x in (d_.left, d_.right)):
+                return self.domain(d_, env, ren)
         if isinstance(node, ast.Call) and isinstance(node.func, ast.Name):
             fn = node.func.id
             if fn in ("enumerate", "reversed", "list", "tuple", "iter", "sorted") and node.args:
@@ -481,6 +492,19 @@ class _Frame:
                 return "continue"
             elif isinstance(st, ast.Assert):
                 self._walrus(st.test, cones)
+            elif isinstance(st, ast.Expr) and isinstance(st.value, ast.Call) and isinstance(st.value.func, ast.Name) and st.value.func.id in self.local_defs \
+                    and depth < 12 and not st.value.keywords and len(st.value.args) == len(self.local_defs[st.value.func.id].args.args):
+                # a local helper that emits values (`def emit(v): c = ..(v); result.append(..)`): its body, with the arguments in place of the parameters
+                fn_ = self.local_defs[st.value.func.id]
+                body_ = [copy.deepcopy(x) for x in fn_.body]
+                for p_, a_ in zip(fn_.args.args, st.value.args):
+                    body_ = [ast.fix_missing_locations(norm._Subst(p_.arg, a_).visit(x)) for x in body_]
+                if any(isinstance(x, (ast.Return, ast.Nonlocal, ast.Global)) for b_ in body_ for x in ast.walk(b_)):
+                    self._walrus(st.value, cones)
+                else:
+                    r_ = self.block(body_, env, cones, ren, depth + 1)
+                    if r_ != "fall":
+                        return r_
             elif isinstance(st, ast.Expr):
                 self._walrus(st.value, cones)
             elif isinstance(st, (ast.While, ast.With, ast.Try, ast.Match)):
